@@ -1263,7 +1263,28 @@ func (p *Program) inlineAt(cs *CallSite, cand *inlineCand, tag string, read func
 				sb.WriteString("{ ")
 				if contAssign {
 					// the variables stay visible after the statement pair
-					sb.WriteString(contLHS + " = " + e + "; " + dtext)
+					// values assigned to _ are dropped (an untyped nil cannot be assigned to it)
+					lhsNames := strings.Split(contLHS, ", ")
+					if len(lhsNames) == len(parts) && strings.Contains(contLHS, "_") {
+						var ln, rn []string
+						for k, nm := range lhsNames {
+							if nm == "_" {
+								if k < len(x.Results) && !simpleExpr(x.Results[k]) {
+									extraFail = true
+								}
+								continue
+							}
+							ln = append(ln, nm)
+							rn = append(rn, strings.ReplaceAll(parts[k], "\n", " "))
+						}
+						if len(ln) > 0 {
+							sb.WriteString(strings.Join(ln, ", ") + " = " + strings.Join(rn, ", ") + "; " + dtext)
+						} else {
+							sb.WriteString(dtext)
+						}
+					} else {
+						sb.WriteString(contLHS + " = " + e + "; " + dtext)
+					}
 					switch contKind {
 					case "nonnil":
 						if !tv.IsNil() {
